@@ -304,11 +304,11 @@ class Dials:
     """Size and feature dials of one profile."""
 
     def __init__(self, **kw):
-        self.nfuncs = (2, 5)
+        self.nfuncs = (2, 4)
         self.nparams = (0, 3)
         self.expr_depth = 4
         self.stmts = (1, 5)
-        self.budget = 60            # instructions-ish per function
+        self.budget = 40            # instructions-ish per function
         self.cost_limit = 4000      # static upper bound on executed call/loop work per export call
         self.exec_profile = True    # C22: memory exported, no non-function imports, plain names
         self.nan_payload = False    # NaN constants with sign/payload/signalling bit
